@@ -266,21 +266,21 @@ def build():
     e.ensures('constraints_are_exactly_the_selector_gated_runner_relations', f'final(builder).ok@ == (old(builder).ok@ && ({ROW}).row_ok())')
 
     PINS = [
-        ('add_row_is_runner_add', 'e_.v@ == r.p_add(lane as int, i as int)'),
-        ('mul_row_is_runner_mul', 'e_.v@ == r.p_mul(lane as int, i as int)'),
-        ('bool_row_first_coefficient', 'e_.v@ == r.p_bool0(lane as int)'),
-        ('bool_row_higher_coefficients_zero', 'e_.v@ == r.p_booli(lane as int, i as int)'),
-        ('muladd_row_is_runner_muladd', 'e_.v@ == r.p_muladd(lane as int, i as int)'),
-        ('b_squared_column', 'e_.v@ == r.p_bsq(i as int)'),
-        ('packed_k2_is_two_runner_steps', 'e_.v@ == r.p_k2(i as int)'),
-        ('packed_ge3_first_intermediate_is_two_runner_steps', 'e_.v@ == r.p_ge3(i as int)'),
-        ('unpacked_horner_row_is_one_runner_step', 'e_.v@ == r.p_fallback(i as int)'),
-        ('last_pair_leg_is_two_runner_steps_into_out', 'e_.v@ == r.p_pair(kk as int, t_, r.out(0), i as int)'),
-        ('middle_pair_leg_is_two_runner_steps_into_next_intermediate', 'e_.v@ == r.p_pair(kk as int, t_, r.iv_(t_ + 1), i as int)'),
-        ('odd_tail_leg_is_one_runner_step_into_out', 'e_.v@ == r.p_tail(kk as int, t_, i as int)'),
-        ('lane_horner_row_is_one_runner_step', 'e_.v@ == r.p_single(lane as int, i as int)'),
+        ('add_row_is_runner_add', r'^sel_add\b', 'e_.v@ == r.p_add(lane as int, i as int)'),
+        ('mul_row_is_runner_mul', r'^sel_mul\b', 'e_.v@ == r.p_mul(lane as int, i as int)'),
+        ('bool_row_first_coefficient', r'^sel_bool\b[^\[]*\[0\]', 'e_.v@ == r.p_bool0(lane as int)'),
+        ('bool_row_higher_coefficients_zero', r'^sel_bool\b[^\[]*\[i\]', 'e_.v@ == r.p_booli(lane as int, i as int)'),
+        ('muladd_row_is_runner_muladd', r'^sel_muladd\b', 'e_.v@ == r.p_muladd(lane as int, i as int)'),
+        ('b_squared_column', r'^any_packed_cur\b', 'e_.v@ == r.p_bsq(i as int)'),
+        ('packed_k2_is_two_runner_steps', r'^next_sel_k2\b', 'e_.v@ == r.p_k2(i as int)'),
+        ('packed_ge3_first_intermediate_is_two_runner_steps', r'^sel_ge3_next\b', 'e_.v@ == r.p_ge3(i as int)'),
+        ('unpacked_horner_row_is_one_runner_step', r'^next_sel_single\b', 'e_.v@ == r.p_fallback(i as int)'),
+        ('last_pair_leg_is_two_runner_steps_into_out', r'^sel_kk\b.*\bprod\b.*\bout\[i\]', 'e_.v@ == r.p_pair(kk as int, t_, r.out(0), i as int)'),
+        ('middle_pair_leg_is_two_runner_steps_into_next_intermediate', r'^sel_kk\b.*\bprod\b.*\bint_next\[i\]', 'e_.v@ == r.p_pair(kk as int, t_, r.iv_(t_ + 1), i as int)'),
+        ('odd_tail_leg_is_one_runner_step_into_out', r'^sel_kk\b.*\bint_b\[i\]', 'e_.v@ == r.p_tail(kk as int, t_, i as int)'),
+        ('lane_horner_row_is_one_runner_step', r'^next_sel_horner\b', 'e_.v@ == r.p_single(lane as int, i as int)'),
     ]
-    e.pin_call_args('builder.assert_zero(', PINS)
+    PINNED = e.pin_call_args_keyed('builder.assert_zero(', PINS)
 
     # ------------------------------------------------------------------ ghost scaffolding (every loop carries its own context: small queries)
     def vec(name, spec):
@@ -306,7 +306,11 @@ def build():
                 assert(iv(a@) =~= r.a(ln)); assert(iv(b@) =~= r.b(ln)); assert(iv(c@) =~= r.c(ln)); assert(iv(out@) =~= r.out(ln));
             }""")
 
-    def coef_loop(nth, okname, pexpr, ctx, hdr='for i in ', lo='0'):
+    def coef_loop(label, okname, pexpr, ctx, hdr='for i in ', lo='0'):
+        """the loop is located by the pinned call it contains (not by its ordinal); absent call => no loop contract attached"""
+        nth = e.loop_ordinal_enclosing(hdr, f'// @@A:{label}\n')
+        if nth is None:
+            return
         e.before(hdr, f'let ghost {okname} = builder.ok@;', nth=nth)
         e.loop(hdr, invariants=[('ctx', ctx), ('coefficients_done', f'builder.ok@ == ({okname} && forall|j: int| {lo} <= j < i ==> #[trigger] ({pexpr}) == 0)')], nth=nth)
 
@@ -315,22 +319,24 @@ def build():
     PAIR = LEG + ' && ' + ' && '.join([vec('a_sp1', 'r.av(s as int + 1)'), vec('c_sp1', 'r.cv(s as int + 1)'), vec('int_b_sq', 'emul(r.iv_(t_), r.bsq())'),
                                        vec('c_s_b', 'emul(r.cv(s as int), r.b(0))'), vec('a_s_b', 'emul(r.av(s as int), r.b(0))')])
     # loops in textual order; the later ones first so that earlier `nth` indices stay valid
-    coef_loop(10, 'ok_single', 'r.p_single(ln, j)', f'{G} && {L} && {N}')
-    coef_loop(9, 'ok_tail', 'r.p_tail(kk as int, t_, j)', LEG + ' && ' + vec('int_b', 'emul(r.iv_(t_), r.b(0))'))
-    coef_loop(8, 'ok_mid', 'r.p_pair(kk as int, t_, r.iv_(t_ + 1), j)', PAIR + ' && ' + vec('int_next', 'r.iv_(t_ + 1)'))
-    coef_loop(7, 'ok_last', 'r.p_pair(kk as int, t_, r.out(0), j)', PAIR)
-    coef_loop(6, 'ok_fb', 'r.p_fallback(j)', f'{G} && {L} && {N} && ln == 0 && next_sel_single.v@ == r.nf(0, P_SEL_HORNER) - r.sum_sel(r.pn, 2, r.k + 1)')
-    e.before('for i in ', 'let ghost ok_k2 = builder.ok@;', nth=5)
-    e.loop('for i in ', invariants=[
+    coef_loop('lane_horner_row_is_one_runner_step', 'ok_single', 'r.p_single(ln, j)', f'{G} && {L} && {N}')
+    coef_loop('odd_tail_leg_is_one_runner_step_into_out', 'ok_tail', 'r.p_tail(kk as int, t_, j)', LEG + ' && ' + vec('int_b', 'emul(r.iv_(t_), r.b(0))'))
+    coef_loop('middle_pair_leg_is_two_runner_steps_into_next_intermediate', 'ok_mid', 'r.p_pair(kk as int, t_, r.iv_(t_ + 1), j)', PAIR + ' && ' + vec('int_next', 'r.iv_(t_ + 1)'))
+    coef_loop('last_pair_leg_is_two_runner_steps_into_out', 'ok_last', 'r.p_pair(kk as int, t_, r.out(0), j)', PAIR)
+    coef_loop('unpacked_horner_row_is_one_runner_step', 'ok_fb', 'r.p_fallback(j)', f'{G} && {L} && {N} && ln == 0 && next_sel_single.v@ == r.nf(0, P_SEL_HORNER) - r.sum_sel(r.pn, 2, r.k + 1)')
+    n_k2 = e.loop_ordinal_enclosing('for i in ', '// @@A:packed_k2_is_two_runner_steps\n')
+    if n_k2 is not None:
+      e.before('for i in ', 'let ghost ok_k2 = builder.ok@;', nth=n_k2)
+      e.loop('for i in ', invariants=[
         ('ctx', f'{G} && {L} && {N} && {P} && next_sel_k2.v@ == r.selk(r.pn, 2) && sel_ge3_next.v@ == r.sum_sel(r.pn, 3, r.k + 1) && ' + ' && '.join([
             vec('out_b_sq', 'emul(r.out(0), r.bsqn())'), vec('c0_b_next', 'emul(r.nc(0), r.nb(0))'), vec('a0_b_next', 'emul(r.na(0), r.nb(0))'),
             vec('a1_next', 'r.a1n()'), vec('c1_next', 'r.c1n()'), vec('next_int0', 'r.int0n()')])),
-        ('coefficients_done', 'builder.ok@ == (ok_k2 && (forall|j: int| 0 <= j < i ==> #[trigger] r.p_k2(j) == 0) && (forall|j: int| 0 <= j < i ==> #[trigger] r.p_ge3(j) == 0))')], nth=5)
-    coef_loop(4, 'ok_bsq', 'r.p_bsq(j)', f'{G} && {L} && {P} && any_packed_cur.v@ == r.sum_sel(r.pl, 2, r.k + 1) && ' + vec('bb', 'emul(r.b(0), r.b(0))'))
-    coef_loop(3, 'ok_ma', 'r.p_muladd(ln, j)', f'{G} && {L} && {AB_} && sel_muladd.v@ == r.pf(ln, P_SEL_MULADD)')
-    coef_loop(2, 'ok_bi', 'r.p_booli(ln, j)', f'{G} && {L} && sel_bool.v@ == r.pf(ln, P_SEL_BOOL)', lo='1')
-    coef_loop(1, 'ok_mul', 'r.p_mul(ln, j)', f'{G} && {L} && {AB_} && sel_mul.v@ == r.sel_mul(ln)')
-    coef_loop(0, 'ok_add', 'r.p_add(ln, j)', f'{G} && {L} && sel_add.v@ == r.pf(ln, P_SEL_ADD)')
+        ('coefficients_done', 'builder.ok@ == (ok_k2 && (forall|j: int| 0 <= j < i ==> #[trigger] r.p_k2(j) == 0) && (forall|j: int| 0 <= j < i ==> #[trigger] r.p_ge3(j) == 0))')], nth=n_k2)
+    coef_loop('b_squared_column', 'ok_bsq', 'r.p_bsq(j)', f'{G} && {L} && {P} && any_packed_cur.v@ == r.sum_sel(r.pl, 2, r.k + 1) && ' + vec('bb', 'emul(r.b(0), r.b(0))'))
+    coef_loop('muladd_row_is_runner_muladd', 'ok_ma', 'r.p_muladd(ln, j)', f'{G} && {L} && {AB_} && sel_muladd.v@ == r.pf(ln, P_SEL_MULADD)')
+    coef_loop('bool_row_higher_coefficients_zero', 'ok_bi', 'r.p_booli(ln, j)', f'{G} && {L} && sel_bool.v@ == r.pf(ln, P_SEL_BOOL)', lo='1')
+    coef_loop('mul_row_is_runner_mul', 'ok_mul', 'r.p_mul(ln, j)', f'{G} && {L} && {AB_} && sel_mul.v@ == r.sel_mul(ln)')
+    coef_loop('add_row_is_runner_add', 'ok_add', 'r.p_add(ln, j)', f'{G} && {L} && sel_add.v@ == r.pf(ln, P_SEL_ADD)')
 
     # facts about the next row / extra region, established once per lane
     e.before('let extra_main = self.lanes * lane_width;', """proof {
